@@ -36,6 +36,9 @@ pub struct Aux {
     pub wsplit: Option<usize>,
     #[serde(default, skip_serializing_if = "Option::is_none")]
     pub rsplit: Option<usize>,
+    /// replay of a zoo self-test failure (library panic on a valid value)
+    #[serde(default, skip_serializing_if = "std::ops::Not::not")]
+    pub selftest: bool,
     /// systematic layers use a fixed small stream and benign knobs
     #[serde(default, skip_serializing_if = "std::ops::Not::not")]
     pub systematic: bool,
